@@ -358,3 +358,18 @@ def _attrs_equal(x, y):
         return xr.core.utils.dict_equiv(x, y)
     except Exception:
         return x == y
+
+
+def sanitize_descs(descs: dict) -> None:
+    """Last step of every generator: at least three *valid* (not all-NaN) features per data set. Two
+    standardised features are the degenerate +-45 degree family (signs and rotations decided by exact ties)."""
+    for d in descs.values():
+        if d.get("kind") == "weights" or not d.get("nan_features"):
+            continue
+        fields = d["fields"] if d.get("container", "da") != "da" else d["fields"][:1]
+        f0 = int(np.prod([x[1] for x in fields[0]]))
+        keep = min(int(d["nan_features"]), max(0, f0 - 2), max(0, n_features_total(d) - 3))
+        if keep > 0:
+            d["nan_features"] = keep
+        else:
+            d.pop("nan_features")
